@@ -541,7 +541,10 @@ func zzTunnel(invalidOK bool) Tunnel {
 
 // zzList: 0..N tunnels whose non-empty hostnames are pairwise distinct (the documented shape of a configuration).
 func zzList(name string, invalidOK bool) []Tunnel {
-	n := rt.Choose(name+"-tunnels", rt.Bound("N")+1)
+	n := rt.Bound("N")
+	if rt.Bound("exact") == 0 {
+		n = rt.Choose(name+"-tunnels", rt.Bound("N")+1)
+	}
 	l := make([]Tunnel, 0, n)
 	for i := 0; i < n; i++ {
 		t := zzTunnel(invalidOK)
@@ -704,16 +707,21 @@ func ZZ_C44_Race() {
 	zzBuilt = true
 	c.Configuration.buildRouter()
 	for i := range old {
-		if old[i].Hostname != "" && rt.Fork("proxy-cached") {
+		if old[i].Hostname != "" && (rt.Bound("allcached") > 0 || rt.Fork("proxy-cached")) {
 			zzCheckNew(zzConnect(c, old[i].Hostname, zzHTTP), old, "before-change")
 			rt.Reach("pre-cached-proxy")
 		}
 	}
 	reload := rt.Fork("reload")
 	next := zzList("new", false)
+	if rt.Bound("samehosts") > 0 { // both lists name the same hostnames; only targets and options may differ
+		for i := range next {
+			next[i].Hostname = old[i].Hostname
+		}
+	}
 	rh := string(rt.BytesN("racing-hostname", 1))
 	ralpn := zzHTTP
-	if rt.Fork("racing-tcp") {
+	if rt.Bound("httponly") == 0 && rt.Fork("racing-tcp") {
 		ralpn = zzTCP
 	}
 	if reload {
